@@ -265,6 +265,41 @@ func c18QueueAlignment(c *core.Ctx) {
 			}
 		}
 		c.Check(R, sockFlush+"/one-group-per-handoff", u.Pos(), ok, keyf("%d Push sites, exactly one on every path to Send, value = packetsFn.AllAndClear() or nil", len(pushes)))
+		// the callbacks travel with their packets: they are taken exactly when packets were taken, and a nil group is
+		// queued only when no callback was taken (mutation audit round 4: both conditions could be negated unnoticed)
+		takenFrom := func(field string) func(x *core.Unit, e ast.Expr) bool {
+			return func(x *core.Unit, e ast.Expr) bool {
+				v, _ := core.ObjOf(x.Info(), e).(*types.Var)
+				if v == nil {
+					return false
+				}
+				for _, d := range x.DefsOf(v) {
+					if ce, isCall := ast.Unparen(d).(*ast.CallExpr); isCall && calleeNameOf(ce) == "AllAndClear" {
+						if se, isS := ce.Fun.(*ast.SelectorExpr); isS && fieldOf(x.Info(), se.X) == field {
+							return true
+						}
+					}
+				}
+				return false
+			}
+		}
+		havePackets := lenNonEmpty(takenFrom("socket.writeBuffer"))
+		haveCallbacks := lenNonEmpty(takenFrom("socket.packetsFn"))
+		okTake, takes := true, 0
+		for _, cl := range fieldCalls(u, "socket.packetsFn") {
+			if cl.Name == "AllAndClear" {
+				takes++
+				okTake = okTake && g.GuardedBy(cl.Loc, havePackets)
+			}
+		}
+		okNil := true
+		for _, p := range pushes {
+			if core.IsNil(u.Info(), p.Arg(0)) && !g.GuardedBy(p.Loc, gNot(haveCallbacks)) {
+				okNil = false
+			}
+			okNil = okNil && g.GuardedBy(p.Loc, havePackets)
+		}
+		c.Check(R, sockFlush+"/callbacks-taken-with-their-packets", u.Pos(), takes >= 1 && okTake && okNil, keyf("%d take(s) of packetsFn, each on the edge where packets were taken: %v; every Push on that edge, a literal nil only where no callback was taken: %v", takes, okTake, okNil))
 	}
 	od := c.Fn(R, "engine.(*socket).onDrain")
 	if od != nil {
